@@ -81,6 +81,8 @@ static void r_spread(Ctx& c)        { aMatrix n = spread<0>(c.a * c.p, 2); c.out
 static void s_outer(Ctx& c)         { c.m.resize(c.s, c.s); c.m = outer_product(c.a, c.b); }
 static void r_diag_vector(Ctx& c)   { aVector v = diag_vector(c.m * c.m); c.outv.link(v); }
 static void r_diag_vector_m1(Ctx& c){ aVector v = diag_vector(c.m * c.p, c.s > 1 ? 1 : 0); c.outv.link(v); }
+static void r_diag_vector_n1(Ctx& c){ aVector v = diag_vector(c.m * c.p, c.s > 1 ? -1 : 0); c.outv.link(v); }   // sub-diagonal of a non-symmetric matrix
+static void r_diag_vector_n2(Ctx& c){ aVector v = diag_vector(c.m + c.m * c.p, c.s > 2 ? -2 : 0); c.outv.link(v); }
 // ---- user-supplied dependences
 static void s_dep(Ctx& c)           { c.xs[0] = c.p; c.xs[1] = c.q; c.xs[2] = c.p * c.q; c.mult[0] = 0.5; c.mult[1] = 0.0; c.mult[2] = 0.5; }
 static void r_dependence(Ctx& c)    { adouble y = 2.0; y.add_derivative_dependence(c.xs, c.mult, 3); y.append_derivative_dependence(c.xs, c.mult, 2);
@@ -116,7 +118,7 @@ static Entry catalogue[] = {
   {"product_dim0_2", s_mat2, r_product_dim0_2}, {"norm2_dim1", s_mat2, r_norm2_dim1}, {"mean", none, r_mean}, {"norm2", none, r_norm2}, {"maxval", none, r_maxval},
   {"sum_dim0", s_mat2, r_sum_dim0}, {"product_dim1", s_mat2, r_product_dim1}, {"mean_dim1", s_mat2, r_mean_dim1},
   {"dot", none, r_dot}, {"outer", none, r_outer}, {"spread", none, r_spread},
-  {"diag_vector", s_outer, r_diag_vector}, {"diag_vector_p1", s_outer, r_diag_vector_m1},
+  {"diag_vector", s_outer, r_diag_vector}, {"diag_vector_p1", s_outer, r_diag_vector_m1}, {"diag_vector_n1", s_outer, r_diag_vector_n1}, {"diag_vector_n2", s_outer, r_diag_vector_n2},
   {"dependence", s_dep, r_dependence},
   {"fixed_scalar", s_fixed, r_fixed_scalar}, {"fixed_expr", s_fixed, r_fixed_expr}, {"fixed_fill", s_fixed, r_fixed_fill},
   {"symm_scalar", s_symm, r_symm_scalar}, {"symm_expr", s_symm, r_symm_expr}, {"interp", s_interp, r_interp},
